@@ -17,6 +17,9 @@ dialect neovm
 pure ckey(k Bytes) Bytes  = "candidate" ++ k
 pure c2key(k Bytes) Bytes = "2" ++ k
 pred SameBut(s Store, t Store, a Bytes, b Bytes) = forall x Bytes {s.opt(x)} :: x != a && x != b ==> s.opt(x) == t.opt(x)
+// a candidate is present in at least one list, and what is stored for it is a serialised record (never empty)
+pure present(s Store, k Bytes) Bool = (s.has(ckey(k)) || s.has(c2key(k)))
+     && (s.has(ckey(k)) ==> len(s.get(ckey(k))) > 0) && (s.has(c2key(k)) ==> len(s.get(c2key(k))) > 0)
 
 func addToNetmap(ctx, publicKey, node)
   ensures [C07] store.has(ckey(publicKey)) && store.get(ckey(publicKey)) == ser_Node(node)
@@ -29,7 +32,7 @@ func removeFromNetmap(ctx, key)
   ensures notifs == old(notifs)
 
 func updateNetmapState(ctx, key, state)
-  nofault given store.has(ckey(key)) || store.has(c2key(key))
+  nofault given present(store, key)
   ensures [C07] old(store).has(ckey(key)) || old(store).has(c2key(key))
   ensures [C07] old(store).has(ckey(key)) ==> store.has(ckey(key))
         && deser_Node(store.get(ckey(key))) == Node{deser_Node(old(store).get(ckey(key))).BLOB, state}
@@ -44,7 +47,7 @@ func updateNetmapState(ctx, key, state)
   ensures notifs == old(notifs)
 
 func updateCandidateState(ctx, publicKey, state)
-  nofault given state == 2 || ((state == 1 || state == 3) && (store.has(ckey(publicKey)) || store.has(c2key(publicKey))))
+  nofault given state == 2 || ((state == 1 || state == 3) && present(store, publicKey))
   ensures [C07] state == 1 || state == 2 || state == 3
   ensures [C07] state == 2 ==> !store.has(ckey(publicKey)) && !store.has(c2key(publicKey))
   ensures [C07] state != 2 ==> (old(store).has(ckey(publicKey)) || old(store).has(c2key(publicKey)))
@@ -59,7 +62,7 @@ func updateCandidateState(ctx, publicKey, state)
   ensures [C07] notifs == old(notifs) ++ [UpdateStateSuccess(publicKey, state)]
 
 func UpdateState(state, publicKey)
-  nofault given len(publicKey) == 33 && W(publicKey) && W(alphabet()) && (state == 2 || ((state == 1 || state == 3) && (store.has(ckey(publicKey)) || store.has(c2key(publicKey)))))
+  nofault given len(publicKey) == 33 && W(publicKey) && W(alphabet()) && (state == 2 || ((state == 1 || state == 3) && present(store, publicKey)))
   ensures [C07] W(publicKey) && W(alphabet()) && len(publicKey) == 33
   ensures [C07] state == 1 || state == 2 || state == 3
   ensures [C07] state == 2 ==> !store.has(ckey(publicKey)) && !store.has(c2key(publicKey))
@@ -73,7 +76,7 @@ func UpdateState(state, publicKey)
   ensures [C07] notifs == old(notifs) ++ [UpdateStateSuccess(publicKey, state)]
 
 func UpdateStateIR(state, publicKey)
-  nofault given W(alphabet()) && (state == 2 || ((state == 1 || state == 3) && (store.has(ckey(publicKey)) || store.has(c2key(publicKey)))))
+  nofault given W(alphabet()) && (state == 2 || ((state == 1 || state == 3) && present(store, publicKey)))
   ensures [C07] W(alphabet())
   ensures [C07] state == 1 || state == 2 || state == 3
   ensures [C07] state == 2 ==> !store.has(ckey(publicKey)) && !store.has(c2key(publicKey))
